@@ -29,37 +29,37 @@ CHECKS = {
  "C08": dict(cat="model_checking", tech="TLA+ fork/join model (all interleavings; uninterpreted results; read/write sets) + hook-forced completion orders, run-order histories and ThreadSanitizer runs validated by TLC's memo contract",
              text="Design level: TLC explores every interleaving of the two solver threads with the main thread (results are terms over what was read, so a cross-thread read makes them schedule dependent; the racy variant is rejected). Code level: the hook forces both completion orders of every lower-bound step plus random orders/delays, on one and many cores; job histories in different orders and processes; every pair of executions of the same stage on the same input must agree bitwise (TLC memo); TSan reports are refused events.",
              ref="5/C08", engine="tlc-design; record + tlc-trace"),
- "C09": dict(cat="model_checking", tech="TLA+ orientation algebra + IncrHpwl spec: TLC-enumerated cases and update histories replayed into Circuit/IncrNetModel; TLC trace validation of random circuits",
+ "C09": dict(cat="model_checking", tech="TLA+ orientation algebra + IncrHpwl spec: TLC-enumerated cases and update histories replayed into Circuit/IncrNetModel; TLC trace validation of random circuits (also translated by 2^24..2^27 and magnified to the end of the int range); wirelength of the state defined by histories of the public mutators (abstract data type PlaceAPI.ApiEffect)",
              text="Exhaustive within bounds: every orientation x size x pin offset (the algebra is generated from two generators, independent of the code's case table) and every update history of the implementation-shaped IncrHpwl model (whose invariant value = from-scratch TLC checks) is replayed into the real objects; random circuits and histories are recorded and their wirelengths recomputed by TLC.",
              ref="5/C09", engine="tlc-edges + replay; record + tlc-trace"),
  "C12": dict(cat="model_checking", tech="TLA+ transcription of the cascading descent (RowLegalizer.tla) refining a brute-force contract; all histories replayed into RowLegalizer; TLC trace validation at large coordinates",
              text="TLC checks on the complete scope that the transcription keeps order, containment, optimality (brute force over all ordered placements) and exact cost sums, and that a query leaves the queue unchanged; every history is replayed into a real RowLegalizer (contract decides, step-level equality with the transcription is reported as impl_conformance); random long histories at coordinates up to 2^22 are validated by TLC with a product-free optimality criterion that is itself checked against brute force.",
              ref="5/C12", engine="tlc-design; tlc-edges + replay; record + tlc-trace"),
- "C13": dict(cat="model_checking", tech="TLA+ transportation contract (feasible + no negative residual cycle, checked against brute force); TLC-enumerated tiny problems and random problems solved by the real code, plans validated by TLC",
+ "C13": dict(cat="model_checking", tech="TLA+ transportation contract (feasible + no negative residual cycle, checked against brute force) and SspImpl (implementation-shaped successive-shortest-path model); TLC-enumerated tiny problems and random problems (quantities up to 2^36 logged in units, costs near 2^30 with split potentials, capacity normalisation) solved by the real code, plans validated by TLC",
              text="All tiny problems are enumerated by TLC, solved by TransportationProblem::solve and the returned plans validated by TLC (feasibility, optimality certificate, arg-max assignment); random problems up to 16 sinks likewise.",
              ref="5/C13", engine="tlc-design; record + tlc-trace"),
- "C14": dict(cat="model_checking", tech="TLA+ contract instance with cost |u-v| + rounding rule; TLC-enumerated tiny instances executed under AddressSanitizer, results validated by TLC",
+ "C14": dict(cat="model_checking", tech="TLA+ contract instance with cost |u-v| + rounding rule, and T1dImpl (the sweep transcribed action by action: termination, optimality, rounding in range); TLC-enumerated tiny instances and random ones (totals beyond 2^31, logged in units) executed under AddressSanitizer, results validated by TLC",
              text="Every tiny instance (zero supplies/demands, duplicates, unsorted) is executed by Transportation1d::solve/assign under ASan in forked children; TLC validates plan optimality, the rounding rule and the result length; a sanitizer report is an event outside the contract's alphabet.",
              ref="5/C14", engine="tlc-design; record + tlc-trace"),
- "C15": dict(cat="model_checking", tech="TLA+ FreeSegments (endpoint-based, checked equal to column-based by TLC) enumerated exhaustively and replayed into Row::freespace / Circuit::computeRows; random traces validated",
+ "C15": dict(cat="model_checking", tech="TLA+ FreeSegments (endpoint-based, checked equal to column-based by TLC) enumerated exhaustively and replayed into Row::freespace / Circuit::computeRows; random traces validated, also at the consumers (Legalizer, DetailedPlacement) and on the state defined by histories of the public mutators",
              text="Exhaustive on a grid of before/at/inside/at/after coordinates around a row with every flag combination; random large-coordinate cases validated endpoint-wise.",
              ref="5/C15", engine="tlc-edges + replay; record + tlc-trace"),
  "C10": dict(cat="fault_enumeration", tech="TLA+ protocol model (PlaceProtocol.tla: invariants + liveness, all interleavings) + exhaustive per-instance fault enumeration (throw at every callback index) validated by TLC against the shared setter contract",
              text="Design level: TLC explores every interleaving of calls, callbacks, exceptions and setters of the protocol model (the unrepaired variant Guard=FALSE is kept and violates IdleMeansUnlocked). Code level: for every instance every callback index is used once as the fault point; setters inside callbacks and after each kind of end are validated event by event.",
              ref="5/C10", engine="tlc-design; record + tlc-trace"),
- "C16": dict(cat="model_checking", tech="TLA+ hierarchy model (DensityHier.tla: all interleavings of refine/coarsen/move) executed by the real object + TLC validation of every observed state (DensityOps: tiling, capacity, partition, coordinates)",
+ "C16": dict(cat="model_checking", tech="TLA+ hierarchy model (DensityHier.tla: all interleavings of refine/coarsen/move) executed by the real object + BisectImpl (the bisection rule, replayed through the hook) + TLC validation of every observed state (DensityOps: tiling, capacity, partition, coordinates), also on instances magnified by 2^12",
              text="Design level: TLC explores all interleavings of the view-changing operations and a contract-level move on small grids (tiling, partition, aggregation invariants) and every history is executed by the real HierarchicalDensityPlacement/DensityLegalizer; code level: random regions, parameters and operation sequences, and grids built from circuits; after every operation TLC recomputes capacities from the regions and checks the partition and the coordinates.",
              ref="5/C16", engine="tlc-design; record + tlc-trace"),
  "C17": dict(cat="exploration", tech="TLA+ quadratic-model oracle (NetQuadratic.tla: stationarity of the documented weighted least-squares objective in fixed point) + scaling contract validated by TLC on recorded solver runs",
              text="Exploration with a TLA+ oracle: the conjugate-gradient iteration is not modelled. Recorded solveStar/solve/solveWithPenalty runs on small net lists with dyadic fractional weights are re-run with all weights and penalties scaled; TLC compares float bit patterns for 2^k factors, tolerances otherwise, and evaluates the gradient of the documented quadratic at the returned star solution.",
              ref="5/C17", engine="record + tlc-trace"),
- "C18": dict(cat="model_checking", tech="TLA+ integer post-conditions of the three expansion entry points (cross-multiplied rationals) evaluated by TLC on recorded executions with dyadic arguments",
+ "C18": dict(cat="model_checking", tech="TLA+ integer post-conditions of the three expansion entry points (cross-multiplied rationals) evaluated by TLC on recorded executions with dyadic arguments + ExpandImpl (the carry loop in exact arithmetic, design invariants, replay)",
              text="Every recorded expandCellsToDensity / expandCellsByFactor / computeCellExpansion call is judged by TLC: frame (only movable widths), monotonicity unless capped, utilisation bound after margin, target reached within rounding when uncapped, expansion factors as the maximum over intersecting congested regions.",
              ref="5/C18", engine="record + tlc-trace"),
  "C20": dict(cat="exploration", tech="identity contract on export -> read-back executions (real exportIspd + the package's reader on a Python stand-in) and name relation on the binding table extracted from module.cpp, both evaluated by TLC",
              text="Weakest use of the family (DESIGN section 8): recorded export/read executions are validated against an identity relation field by field, and the binding table of the module source against a same-name relation; the compiled module cannot be built offline.",
              ref="5/C20", engine="record + tlc-trace"),
- "C19": dict(cat="model_checking", tech="finite table of invalid-input attempts executed under ASan+UBSan, outcomes validated by TLC against PlaceAPI.tla (CtorFails, ParamCheckFails, SetterFails)",
+ "C19": dict(cat="model_checking", tech="finite table of invalid-input attempts (each bound probed by a step, a hair, a lot and zero; all three entry points with a control call) + random whole parameter sets (PlaceAPI.ParamsValid) + histories of the public mutators (ApiValid/ApiEffect), executed under ASan+UBSan, outcomes validated by TLC against PlaceAPI.tla",
              text="The attempt space (efforts, every field at/around each bound, every setter with wrong lengths, bad nets) is finite and enumerated completely; expected outcomes come from the contract operators evaluated by TLC; sanitizer reports and aborts are events outside the alphabet.",
              ref="5/C19", engine="record + tlc-trace"),
  "C11": dict(cat="model_checking", tech="TLA+ contract (legal single-row input => stutter) + TLC trace validation of legalize;legalize",
